@@ -207,6 +207,9 @@ def attrs_dec(d):
 # warmed caches (C05: "no stale cached state").  engine.py sets WARM per scenario (every other scenario of a job); a warm
 # array has answered the public query is_monotonic() on every axis, which fills Axis._monotonic, before the operation runs.
 WARM = False
+# ... and for arrays whose data are laid out in Fortran order (what a transpose, or data read from elsewhere, look like): a
+# C-ordered and an F-ordered buffer with equal elements are the same abstract array.  Set per scenario by engine.py.
+FORDER = False
 
 
 def warm(arr):
@@ -231,6 +234,8 @@ def gamma(a, codec=None, kinds=None):
         ax = Axis(codec.enc_seq(labs, kind), name)
         ax.attrs.update(attrs_enc(aat))
         axes.append(ax)
+    if FORDER and vals.ndim >= 2:
+        vals = np.asfortranarray(vals)
     arr = DimArray(vals, axes=axes)
     arr.attrs.update(attrs_enc(a["attrs"]))
     if WARM:
